@@ -353,6 +353,7 @@ class Gen:
             ('num', 'c.make<T>()'),
             ('array3', 'c.make_array<T, 3>()'),
             ('stdvector4', 'c.make_vector<T>(4)'),
+            ('stdvector0', 'c.make_vector<T>(0)'),   # the empty container: data() of nothing must not be touched
             ('PlanarVector', 'c.make<PhQ::PlanarVector<T>>()'),
             ('Vector', 'c.make<PhQ::Vector<T>>()'),
             ('SymmetricDyad', 'c.make<PhQ::SymmetricDyad<T>>()'),
@@ -402,7 +403,7 @@ class Gen:
                               'ret': 'num', 'self': False, 'enum': en, 'unit': e}, body)
                 nxt = ens[(i + 1) % len(ens)]
                 for cname, mk in containers:
-                    if cname == 'stdvector4':
+                    if cname.startswith('stdvector'):
                         continue
                     sizes = ''
                     m = re.match(r'array(\d+)', cname)
